@@ -374,7 +374,14 @@ def rule_r5(prog, res):
                'ok')
     else:
         res.unclass('R5', f.where, 'decimal_to_unicode returns ' + t)
+    rule_b64_joined(prog, res, 'R5')
+
+
+def rule_b64_joined(prog, res, rule='R5'):
     # base64 over the joined bytes
+    if rule != 'R5':
+        res.rule(rule, 'binary text forms are computed over the joined '
+                 'chunks')
     ba = prog.cls('spyne.model.binary:ByteArray')
     for nm in ('to_base64', 'to_urlsafe_base64', 'to_hex'):
         f = ba.methods.get(nm)
@@ -392,11 +399,11 @@ def rule_r5(prog, res):
                         break
                 where = '%s:%d' % (f.module.relpath, c.lineno)
                 per_chunk = inside is not None and call_name(c) != 'hexlify'
-                res.ob('R5', where, 'ByteArray.%s: %s' % (nm,
+                res.ob(rule, where, 'ByteArray.%s: %s' % (nm,
                                                           unparse(c)[:50]),
                        'VIOLATED' if per_chunk else 'ok')
                 if per_chunk:
-                    res.finding('R5', 'ByteArray.%s|per-chunk' % nm, where,
+                    res.finding(rule, 'ByteArray.%s|per-chunk' % nm, where,
                                 'base64 is computed per chunk and then '
                                 'joined: padding lands in the middle of the '
                                 'text whenever a non-final chunk is not a '
